@@ -75,7 +75,12 @@ pub fn seed_from_env() -> i64 {
 
 thread_local! {
     static LAST_PANIC: RefCell<Option<String>> = RefCell::new(None);
+    /// how many `catch` frames are active on this thread
+    static CATCH_DEPTH: std::cell::Cell<u32> = std::cell::Cell::new(0);
 }
+
+/// The run of this process, for the panic hook.
+static CURRENT_RUN: std::sync::OnceLock<Arc<Run>> = std::sync::OnceLock::new();
 
 /// Install a panic hook that records message and location per thread and
 /// prints nothing (the checks provoke panics on purpose).
@@ -96,12 +101,37 @@ pub fn install_panic_hook() {
             eprintln!("panic: {} @ {}", msg, loc);
         }
         LAST_PANIC.with(|p| *p.borrow_mut() = Some(format!("{} @ {}", msg, loc)));
+        // A panic outside every `catch` frame is an expectation of the harness itself that
+        // failed (a scripted set-up step did not behave as on the unchanged tree, an internal
+        // assertion about the library's answers). On the unchanged tree none fires; when one
+        // does, the library behaved differently than the scenario requires: report it as a
+        // violation with the message as its signature instead of dying with exit code 101.
+        if CATCH_DEPTH.with(|d| d.get()) == 0 {
+            if let Some(run) = CURRENT_RUN.get() {
+                let full = format!("{} @ {}", msg, loc);
+                std::thread::spawn(|| {
+                    std::thread::sleep(Duration::from_secs(20));
+                    eprintln!("MACHINERY-ERROR: could not write the evidence after a harness expectation failed");
+                    std::process::exit(2);
+                });
+                run.violation(
+                    &format!("harness-expectation:{}", panic_sig(&full)),
+                    &format!("an expectation of the harness about the library's behaviour failed: {}", full),
+                    json!({"panic": full}),
+                );
+                run.cap("stopped: an expectation of the harness failed");
+                run.finish_inner(false);
+            }
+        }
     }));
 }
 
 /// Run `f`, turning a panic into `Err("message @ file:line")`.
 pub fn catch<T>(f: impl FnOnce() -> T) -> Result<T, String> {
-    match panic::catch_unwind(panic::AssertUnwindSafe(f)) {
+    CATCH_DEPTH.with(|d| d.set(d.get() + 1));
+    let r = panic::catch_unwind(panic::AssertUnwindSafe(f));
+    CATCH_DEPTH.with(|d| d.set(d.get() - 1));
+    match r {
         Ok(v) => Ok(v),
         Err(_) => Err(LAST_PANIC
             .with(|p| p.borrow_mut().take())
@@ -359,6 +389,7 @@ impl Run {
                 }
             }
         });
+        let _ = CURRENT_RUN.set(run.clone());
         run
     }
     pub fn elapsed(&self) -> f64 {
